@@ -180,7 +180,9 @@ class _NegForms(ast.NodeTransformer):
 
 
 def normalise(tree):
+    from .normal import apply_all
     tree = _NegForms().visit(tree)
+    tree = apply_all(tree)
     for node in ast.walk(tree):
         if isinstance(node, (ast.FunctionDef, ast.AsyncFunctionDef)):
             _inline_return_temps(node)
@@ -194,7 +196,11 @@ class Module:
         self.short = name.split('.', 1)[1] if '.' in name else name
         self.relpath = relpath            # glom/core.py
         self.source = source
-        self.tree = normalise(ast.parse(source, filename=relpath))
+        from .inline import inline_new_helpers
+        tree = ast.parse(source, filename=relpath)
+        tree = inline_new_helpers(tree, self.short)
+        self.inlined = tree._inlined
+        self.tree = normalise(tree)
         self.symbols = {}                 # name -> list of raw bindings
         self.units = []
         self.classes = []
